@@ -1,5 +1,6 @@
 import Nstd.Variant.LemmasSpec
 import Nstd.Variant.LemmasDec
+import Nstd.Variant.LemmasParse
 import Nstd.Variant.Ieee
 import Nstd.Variant.DeepRun
 import Nstd.Variant.DeepFuel
@@ -334,6 +335,72 @@ theorem eq_int_string (ds : DblSem) (i : Int) (h : inS 32 i) :
     veq ds (.int i) (.str (intDec i)) = some true ∧ veq ds (.str (intDec i)) (.int i) = some true := by
   have h64 : inS 64 i := by simp only [inS, pow31, pow63] at *; omega
   constructor <;> simp [veq, scalarEq, Val.toInt, optEq, strtol_intDec i h64, wrapS32_id i h]
+
+/-! ### every numeral text, overflow included
+
+The string rows of the table above, made independent of the parsers' accumulator loop: for **every** string of the
+shape  white space* · sign? · digit* · rest  (`NumSyntax`: any number of digits, `rest` starting with no digit and
+otherwise arbitrary, NUL bytes included) the conversions return the integer the digits denote positionally
+(`decVal` = Σ dᵢ·10^(n-1-i)), with libc's overflow rules: `atoll`/`strtol` clamp to `LLONG_MIN`/`LLONG_MAX`,
+`strtoull`/`strtoul` return `ULLONG_MAX` on overflow and negate modulo 2^64 after a minus sign, `atoi` and
+`(uint)strtoul` then truncate to 32 bits. -/
+
+theorem toInt64_numeral (ds : DblSem) {ws : Str} {sg : Sign} {dg rest : Str} (h : NumSyntax ws sg dg rest) :
+    (Val.str (ws ++ sg.str ++ dg ++ rest)).toInt64 ds = some (clampS64 (signedVal sg dg)) := by
+  simp only [Val.toInt64, strtol_syntax h]
+
+theorem toUInt64_numeral (ds : DblSem) {ws : Str} {sg : Sign} {dg rest : Str} (h : NumSyntax ws sg dg rest) :
+    (Val.str (ws ++ sg.str ++ dg ++ rest)).toUInt64 ds =
+      some (if decVal dg > 18446744073709551615 then 18446744073709551615
+            else if sg.neg ∧ decVal dg ≠ 0 then 18446744073709551616 - (decVal dg : Int) else (decVal dg : Int)) := by
+  simp only [Val.toUInt64, strtoul_syntax h]
+
+/-- `atoi` = `(int)strtol`: the clamped 64-bit value truncated to 32 bits (so "2147483648" gives -2147483648 and
+    "99999999999999999999" gives -1, as glibc does) -/
+theorem toInt_numeral (ds : DblSem) {ws : Str} {sg : Sign} {dg rest : Str} (h : NumSyntax ws sg dg rest) :
+    (Val.str (ws ++ sg.str ++ dg ++ rest)).toInt ds = some (wrapS 32 (clampS64 (signedVal sg dg))) := by
+  simp only [Val.toInt, strtol_syntax h]
+
+theorem toUInt_numeral (ds : DblSem) {ws : Str} {sg : Sign} {dg rest : Str} (h : NumSyntax ws sg dg rest) :
+    (Val.str (ws ++ sg.str ++ dg ++ rest)).toUInt ds =
+      some (wrapU 32 (if decVal dg > 18446744073709551615 then 18446744073709551615
+            else if sg.neg ∧ decVal dg ≠ 0 then 18446744073709551616 - (decVal dg : Int) else (decVal dg : Int))) := by
+  simp only [Val.toUInt, strtoul_syntax h]
+
+/-- a numeral that fits converts to the integer it denotes (no clamping) -/
+theorem toInt64_numeral_fits (ds : DblSem) {ws : Str} {sg : Sign} {dg rest : Str} (h : NumSyntax ws sg dg rest)
+    (hfit : inS 64 (signedVal sg dg)) :
+    (Val.str (ws ++ sg.str ++ dg ++ rest)).toInt64 ds = some (signedVal sg dg) := by
+  rw [toInt64_numeral ds h]
+  simp only [inS, pow63] at hfit
+  simp only [clampS64]
+  congr 1
+  repeat' split
+  all_goals omega
+
+/-- non-vacuity: "\t -12abc" (rest with letters) and a 20-digit overflow -/
+example : NumSyntax [9, 32] .minus [49, 50] [97, 98, 99] := by
+  constructor
+  · decide
+  · intro c hc; simp at hc; rcases hc with rfl | rfl <;> decide
+  · intro c hc; simp at hc; subst hc; decide
+  · intro h; cases h
+
+example : (Val.str ([9, 32] ++ Sign.minus.str ++ [49, 50] ++ [97, 98, 99])).toInt64 ieee = some (-12) := by decide
+
+example : NumSyntax [] .none (List.replicate 20 57) [] := by
+  constructor
+  · intro c hc; cases hc
+  · intro c hc; simp at hc; rw [hc]; decide
+  · intro c hc; cases hc
+  · intro _ h; cases h
+
+example : (Val.str (List.replicate 20 57)).toInt64 ieee = some 9223372036854775807 ∧
+    (Val.str (List.replicate 20 57)).toUInt64 ieee = some 18446744073709551615 ∧
+    (Val.str (List.replicate 20 57)).toInt ieee = some (-1) ∧
+    (Val.str (45 :: List.replicate 20 57)).toInt64 ieee = some (-9223372036854775808) ∧
+    (Val.str [45, 49]).toUInt64 ieee = some 18446744073709551615 := by
+  refine ⟨?_, ?_, ?_, ?_, ?_⟩ <;> decide
 
 /-! ## equality -/
 
